@@ -39,33 +39,36 @@ namespace RandomAgents
 def orderStatus (e : MEnv) (a id : Nat) : Option Status :=
   (e.market.books[a]?).bind fun b => (b.orders[id]?).map (·.order.status)
 
+/-- Does the trader hold an order that is Active as it looks? -/
+def holdsActive (e : MEnv) (a : Nat) : Option Nat → Bool
+  | some id => orderStatus e a id == some .active
+  | none => false
+
+/-- The placement branch: side, tick and volume drawn in this order; the order is submitted with
+price `tick * tick_size` and the trader's index as trader id. `none` = the Rust code panics. -/
+def placeRandom (c : RandomAgents) (n : Nat) (e : MEnv) (g : Xoro) : Option (Option Nat × MEnv × Xoro) :=
+  -- `[Side::Ask, Side::Bid].choose(rng)`
+  match Xoro.genRange 2 Xoro.FUEL g with
+  | none => none
+  | some (si, g) =>
+    match Xoro.genRangeLoHi c.tickLo c.tickHi g with
+    | none => none
+    | some (tick, g) =>
+      match Xoro.genRangeLoHi c.volLo c.volHi g with
+      | none => none
+      | some (vol, g) =>
+        match (e.placeOrder c.asset (if si = 0 then .ask else .bid) vol n (some (tick * c.tickSize))).2 with
+        | .ok id => some (some id, (e.placeOrder c.asset (if si = 0 then .ask else .bid) vol n (some (tick * c.tickSize))).1, g)
+        | _ => none            -- `.unwrap()` of a `PriceError`
+
 /-- The closure of `update` for trader `n` holding `cur`. `none` = the Rust code panics. -/
 def updateOne (c : RandomAgents) (n : Nat) (cur : Option Nat) (e : MEnv) (g : Xoro) :
     Option (Option Nat × MEnv × Xoro) :=
-  let (p, g) := g.genF32
   -- `p < activity_rate`
-  if p * c.rateDen < c.rateNum * 16777216 then
-    let active : Bool := match cur with
-      | some id => orderStatus e c.asset id == some .active
-      | none => false
-    if active then
-      some (none, e.cancelOrder c.asset (cur.getD 0), g)
-    else
-      -- `[Side::Ask, Side::Bid].choose(rng)`
-      match Xoro.genRange 2 Xoro.FUEL g with
-      | none => none
-      | some (si, g) =>
-        let side : Side := if si = 0 then .ask else .bid
-        match Xoro.genRangeLoHi c.tickLo c.tickHi g with
-        | none => none
-        | some (tick, g) =>
-          match Xoro.genRangeLoHi c.volLo c.volHi g with
-          | none => none
-          | some (vol, g) =>
-            match e.placeOrder c.asset side vol n (some (tick * c.tickSize)) with
-            | (e, .ok id) => some (some id, e, g)
-            | _ => none            -- `.unwrap()` of a `PriceError`
-  else some (cur, e, g)
+  if g.genF32.1 * c.rateDen < c.rateNum * 16777216 then
+    if holdsActive e c.asset cur then some (none, e.cancelOrder c.asset (cur.getD 0), g.genF32.2)
+    else placeRandom c n e g.genF32.2
+  else some (cur, e, g.genF32.2)
 
 def updateFrom (c : RandomAgents) : Nat → List (Option Nat) → MEnv → Xoro → Option (List (Option Nat) × MEnv × Xoro)
   | _, [], e, g => some ([], e, g)
